@@ -349,7 +349,16 @@ def _concat_job(case):
     x = "<p>first ${1 + 1}</p>"
     y = "<p>second ${2 + 2}</p>"
     kind = case["kind"]
-    if kind == "class_suffix":
+    if kind == "builtin_names":
+        body = ("<p>${a | '-'}|${bc | '-'}|${ab | '-'}|${c | '-'}</p>")
+        a = {"cls": "PageTemplate", "body": body, "kwargs": {},
+             "options": {"extra_builtins": {"a": "A", "bc": "BC"}}}
+        b = {"cls": "PageTemplate", "body": body, "kwargs": {},
+             "options": {"extra_builtins": {"ab": "AB", "c": "C"}}}
+        procs = [[a], [b]] if case["two_procs"] else [[a, b]]
+        if case["order"]:
+            procs = [list(reversed(p)) for p in reversed(procs)]
+    elif kind == "class_suffix":
         a = dict(kw, cls="SubA", body=x)
         b = dict(kw, cls="A", body=x + "Sub")
         procs = [[a], [b]] if case["two_procs"] else [[a, b]]
@@ -423,11 +432,11 @@ class Bodies(Stage):
                                               "pos": pos + seed,
                                               "order": order,
                                               "two_procs": two})
-        for kind in ("class_suffix", "class_between", "nothing_between",
-                     "text_class_between"):
-            for order in range(2 if kind == "class_suffix" else 5):
-                for two in ((False, True) if kind == "class_suffix"
-                            else (False,)):
+        for kind in ("class_suffix", "builtin_names", "class_between",
+                     "nothing_between", "text_class_between"):
+            pairwise = kind in ("class_suffix", "builtin_names")
+            for order in range(2 if pairwise else 5):
+                for two in ((False, True) if pairwise else (False,)):
                     cases.append({"base": "concat", "kind": kind,
                                   "order": order, "two_procs": two,
                                   "pos": 0})
@@ -492,8 +501,23 @@ def check_reader(cache, cfg):
     return problems
 
 
-def dry_steps(cfg):
-    cache = tempfile.mkdtemp(prefix="c15-")
+def other_fs_dir():
+    """A writable directory on another file system than the temporary
+    directory (a rename between the two is not possible), or None."""
+    here = os.stat(tempfile.gettempdir()).st_dev
+    for cand in ("/dev/shm", "/var/tmp", "/run/user/%d" % os.getuid(),
+                 os.path.expanduser("~")):
+        try:
+            if os.path.isdir(cand) and os.access(cand, os.W_OK) and \
+                    os.stat(cand).st_dev != here:
+                return cand
+        except OSError:
+            pass
+    return None
+
+
+def dry_steps(cfg, base=None):
+    cache = tempfile.mkdtemp(prefix="c15-", dir=base)
     try:
         rc, res, raw = child(cache, {"mode": "dry", "jobs": [cfg]})
         if res is None:
@@ -506,9 +530,10 @@ def dry_steps(cfg):
 
 
 def _crash_job(args):
-    name, k = args
+    name, k = args[:2]
+    base = args[2] if len(args) > 2 else None
     cfg = CRASH_CFGS[name]
-    cache = tempfile.mkdtemp(prefix="c15-")
+    cache = tempfile.mkdtemp(prefix="c15-", dir=base)
     try:
         rc, res, raw = child(cache, {"mode": "crash", "crash_at": k,
                                      "jobs": [cfg]})
@@ -526,7 +551,8 @@ class Crash(Stage):
     name = "crash"
 
     def oracle(self, case):
-        a, problems, err = _crash_job((case["config"], case["step"]))
+        a, problems, err = _crash_job((case["config"], case["step"],
+                                       case.get("base")))
         if err:
             raise HarnessError(err)
         if problems:
@@ -537,13 +563,23 @@ class Crash(Stage):
 
     def run(self, tier, seed, check):
         jobs, info, harness = [], {}, []
-        for name, cfg in CRASH_CFGS.items():
-            steps, finals = dry_steps(cfg)
-            info[name] = steps
-            if not any(s.startswith("write") for s in steps) or not finals:
-                harness.append("interposition saw no write / no final entry "
-                               "for %s: %r %r" % (name, steps, finals))
-            jobs += [(name, k) for k in range(len(steps))]
+        # the cache directory next to the temporary directory and - where
+        # the machine has one - on another file system
+        bases = [None]
+        if other_fs_dir():
+            bases.append(other_fs_dir())
+        for base in bases:
+            for name, cfg in CRASH_CFGS.items():
+                steps, finals = dry_steps(cfg, base)
+                info[name + ("@" + base if base else "")] = steps
+                if base is None:
+                    info[name] = steps
+                if not any(s.startswith("write") for s in steps) or \
+                        not finals:
+                    harness.append(
+                        "interposition saw no write / no final entry for "
+                        "%s: %r %r" % (name, steps, finals))
+                jobs += [(name, k, base) for k in range(len(steps))]
         ctx = multiprocessing.get_context("fork")
         with ctx.Pool(NCPU) as pool:
             res = pool.map(_crash_job, jobs, chunksize=1)
@@ -552,16 +588,18 @@ class Crash(Stage):
             if err:
                 harness.append(err)
             elif problems:
+                key = args[0] + ("@" + args[2] if args[2] else "")
                 failures.append((
-                    {"config": args[0], "step": args[1],
-                     "step_name": info[args[0]][args[1]]},
+                    {"config": args[0], "step": args[1], "base": args[2],
+                     "step_name": info[key][args[1]]},
                     Mismatch("crash:" + sorted(problems[0])[0], {
                         "config": args[0], "step": args[1],
-                        "step_name": info[args[0]][args[1]],
+                        "cache_directory_under": args[2],
+                        "step_name": info[key][args[1]],
                         "problems": problems})))
         return {
             "evaluations": len(jobs),
-            "nontrivial_ids": ["%s@%d" % j for j in jobs],
+            "nontrivial_ids": ["%s@%d@%s" % j for j in jobs],
             "failures": failures[:4], "harness": harness[:3],
             "samples": [{"steps": info}],
             "info": {"exhaustive": True, "steps": info,
